@@ -179,6 +179,32 @@ impl Prop for C10 {
         // E: many rectangles / many updates
         cs.push(Case { pdus: vec![Pdu { updates: vec![Update::Bitmap((0..200).map(|k| rect(k, (k % 7) as usize)).collect())], long_form: true, first_byte: 0 }], direct: false, coalesced: false, block: "many" });
         cs.push(Case { pdus: vec![Pdu { updates: (0..300).map(|k| if k % 3 == 0 { Update::Bitmap(vec![rect(k, 2)]) } else { fastpath::other_update((k % 16) as u8) }).collect(), long_form: true, first_byte: 0 }], direct: false, coalesced: false, block: "many" });
+        // C2: every non-bitmap update code (2..15, and 0 = orders) carrying a body that is a perfectly good bitmap update
+        // payload: no bitmap event may come out of it, and the real bitmap update behind it is delivered
+        {
+            let look_alike = Update::Bitmap(vec![rect(1, 4), rect(2, 0)]).bytes();
+            // Update::bytes() = header byte + u16 size + body: keep the body
+            let body = look_alike[3..].to_vec();
+            for code in (0..16u8).filter(|c| *c != 1) {
+                for frag in [0u8] {
+                    let u = Update::Other { code: code | (frag << 4), body: body.clone() };
+                    cs.push(Case { pdus: vec![Pdu { updates: vec![u.clone(), Update::Bitmap(vec![rect(9, 3)])], long_form: false, first_byte: 0 }], direct: false, coalesced: false, block: "look-alike-bodies" });
+                    cs.push(Case { pdus: vec![Pdu { updates: vec![Update::Bitmap(vec![rect(9, 3)]), u], long_form: true, first_byte: 0 }], direct: false, coalesced: false, block: "look-alike-bodies" });
+                }
+            }
+        }
+        // D1: short-form PDUs of the largest sizes the one-byte length can express (and the same in long form)
+        {
+            let overhead = framing::fastpath(0, &fastpath::updates_payload(&[Update::Bitmap(vec![rect(1, 0)])]), false).len();
+            for t in 120usize..=127 {
+                if t >= overhead {
+                    for long_form in [false, true] {
+                        let extra = if long_form { 1 } else { 0 };
+                        cs.push(Case { pdus: vec![Pdu { updates: vec![Update::Bitmap(vec![rect(3, t - overhead - extra)])], long_form, first_byte: 0 }, Pdu { updates: vec![Update::Bitmap(vec![rect(4, 1)])], long_form: false, first_byte: 0 }], direct: false, coalesced: true, block: "total-length" });
+                    }
+                }
+            }
+        }
         // D2: long-form PDUs whose TOTAL length sits on and around every multiple of 256 up to 2 KiB, and around 4 KiB,
         // 16 KiB and the 15-bit limit (one rectangle, data sized to hit the total exactly)
         {
@@ -235,7 +261,7 @@ impl Prop for C10 {
         json!({"idx": idx, "block": c.block, "direct": c.direct, "pdus": brief, "forms": c.pdus.iter().map(|p| (p.long_form, p.first_byte)).collect::<Vec<_>>()})
     }
     fn rule(&self) -> String {
-        "cases = sequences of fast-path output PDUs delivered to a really activated client (raw stack) through RdpClient::read; PDUs of 0..3 updates over an alphabet of 19 updates (bitmap updates with 0,1,2,3 rectangles, with/without compression header, and 13 non-bitmap/unknown update codes); sequences of <=2 (<=3) PDUs, delivered one frame at a time (lock step) and all at once in one segment before the first read (both length forms, so that an empty PDU of either form is followed by more PDUs); every rectangle field at {0,1,0x7FFF,0xFFFF} one at a time and all-max, depths x flag combinations x data lengths {0,1,2,255,256}, short and long length forms, reserved header bits; long-form PDUs whose total length is k*256-1..k*256+3 (k=1..8) and around 4 KiB / 16 KiB / the 15-bit limit; 1023..3000 rectangles in one update and 1023..5000 updates in one PDU; data lengths up to the 15-bit frame limit and beyond it (0x7FFF..0xFFEC) through global::Client::read directly. Oracle: callback sequence == reference parser's rectangle list (count, order, nine fields, data). Non-trivial: >= 2 updates in total or a non-default field.".into()
+        "cases = sequences of fast-path output PDUs delivered to a really activated client (raw stack) through RdpClient::read; PDUs of 0..3 updates over an alphabet of 19 updates (bitmap updates with 0,1,2,3 rectangles, with/without compression header, and 13 non-bitmap/unknown update codes); sequences of <=2 (<=3) PDUs, delivered one frame at a time (lock step) and all at once in one segment before the first read (both length forms, so that an empty PDU of either form is followed by more PDUs); every rectangle field at {0,1,0x7FFF,0xFFFF} one at a time and all-max, depths x flag combinations x data lengths {0,1,2,255,256}, short and long length forms, reserved header bits; every non-bitmap update code carrying a body that is a valid bitmap update payload; short-form PDUs of 120..127 bytes; long-form PDUs whose total length is k*256-1..k*256+3 (k=1..8) and around 4 KiB / 16 KiB / the 15-bit limit; 1023..3000 rectangles in one update and 1023..5000 updates in one PDU; data lengths up to the 15-bit frame limit and beyond it (0x7FFF..0xFFEC) through global::Client::read directly. Oracle: callback sequence == reference parser's rectangle list (count, order, nine fields, data). Non-trivial: >= 2 updates in total or a non-default field.".into()
     }
     fn assumptions(&self) -> Vec<String> {
         vec!["scope as in the statement: unfragmented, uncompressed updates (fragmentation and compression bits of the update header are 0); numberRectangles consistent with the rectangles present".into()]
